@@ -880,8 +880,8 @@ func runScript(seed uint64, idx int, mix string, nev int, kinds map[string]int, 
 	if sb == 0 {
 		sb = 1 << 20
 	}
-	line := fmt.Sprintf("CTrace [%d;%d;%d;%d;%d;%d;(%d);%d;%d;%d;%d;%d] %s %s [%s]", c.ISS, c.IRS, cfg.PeerMSS, cfg.MTU, v6, cfg.PeerWnd, effWS,
-		b2i(cfg.PeerTS && synTS), b2i(cfg.PeerSACK && synSACK), b2i(synSACK), rb, sb, tcpx.ZL(s.peer), tcpx.CoqState(init), strings.Join(s.steps, ";"))
+	line := fmt.Sprintf("CTrace [%d;%d;%d;%d;%d;%d;(%d);%d;%d;%d;%d;%d;(%d)] %s %s [%s]", c.ISS, c.IRS, cfg.PeerMSS, cfg.MTU, v6, cfg.PeerWnd, effWS,
+		b2i(cfg.PeerTS && synTS), b2i(cfg.PeerSACK && synSACK), b2i(synSACK), rb, sb, synShift(c.SynOpts), tcpx.ZL(s.peer), tcpx.CoqState(init), strings.Join(s.steps, ";"))
 	c.EP.Close()
 	return line, nil
 }
@@ -925,4 +925,25 @@ func b2i(b bool) int {
 		return 1
 	}
 	return 0
+}
+
+// synShift returns the shift count of the window-scale option in a SYN's options (-1: no option).
+func synShift(o []byte) int {
+	for i := 0; i < len(o); {
+		switch o[i] {
+		case 0:
+			return -1
+		case 1:
+			i++
+			continue
+		}
+		if i+1 >= len(o) || o[i+1] < 2 || i+int(o[i+1]) > len(o) {
+			return -1
+		}
+		if o[i] == 3 && o[i+1] == 3 {
+			return int(o[i+2])
+		}
+		i += int(o[i+1])
+	}
+	return -1
 }
